@@ -70,7 +70,7 @@ func vHarness_C13_prefix() {
 	vAssertKnown(refTRUPrefix(f), "an accepted format/base starts with https://origin/, //origin/, /path-start or about:blank#", "C13-fold-nonascii", nonASCII)
 }
 
-var c13Prefixes = []string{"/p/", "//h/", "https://h/", "about:blank#"}
+var c13Prefixes = []string{"/p/", "//h/", "https://h/", "about:blank#", "/a/../b/"}
 
 func refWordByte(b byte) bool { return refAlpha(b) || refDigit(b) || b == '_' }
 
